@@ -412,6 +412,29 @@ func RefreshClient(s *State, k *ibckeeper.Keeper, clientID string, cpHeight int6
 	return true
 }
 
+// ForceRefreshClient is RefreshClient for a gap during which relayers kept the client updated: the
+// status check is skipped (the client never went stale in reality), the newest header is stored.
+func ForceRefreshClient(s *State, k *ibckeeper.Keeper, clientID string, cpHeight int64, cpTime time.Time) bool {
+	ctx := s.Ctx
+	cs, ok := k.ClientKeeper.GetClientState(ctx, clientID)
+	if !ok {
+		return false
+	}
+	tm, ok := cs.(*ibctm.ClientState)
+	if !ok || !tm.FrozenHeight.IsZero() {
+		return false
+	}
+	h := clienttypes.NewHeight(tm.LatestHeight.RevisionNumber, uint64(cpHeight))
+	if !h.GT(tm.LatestHeight) {
+		return false
+	}
+	tm.LatestHeight = h
+	k.ClientKeeper.SetClientState(ctx, clientID, tm)
+	k.ClientKeeper.SetClientConsensusState(ctx, clientID, h, ibctm.NewConsensusState(cpTime,
+		commitmenttypes.NewMerkleRoot([]byte(ibctm.SentinelRoot)), []byte("verif-next-validators-hash-32byte")))
+	return true
+}
+
 // SortedLinkIDs gives a canonical iteration order over a map of links.
 func SortedLinkIDs(m map[string]Link) []string {
 	ks := make([]string, 0, len(m))
